@@ -481,10 +481,10 @@ impl<'a> LoweringManager<'a> {
         vec![wasm::Instruction::Inline(self.set(*name, t, assigned))]
       }
       lir::Statement::LateInitAssignment { name, assigned_expression } => {
-        // For late init, the type was already declared, so we just get it from the expression
-        let assigned = self.lower_expr(assigned_expression);
         // The type should already be in local_variables from LateInitDeclaration
         let t = self.local_variables.get(name).copied().unwrap_or(wasm::Type::Int32);
+        // A type-erased receiver (`match (this) { x -> .. }`) needs a cast to fit the declared slot.
+        let assigned = self.lower_expr_for_slot(assigned_expression, t);
         vec![wasm::Instruction::Inline(self.set(*name, t, assigned))]
       }
       lir::Statement::LateInitDeclaration { name, type_ } => {
